@@ -384,7 +384,7 @@ func laneP_C18(t *testing.T, plan *Plan, w *World, sink *Sink) {
 			}
 			before, _ := readDirSnap(dir)
 			yes := "y\n"
-			res, err := runBinary(dir, flagArgs(rr.Op.Flags), &yes, plan.TZ)
+			res, err := runBinary(dir, Mix(plan.Seed, 81), flagArgs(rr.Op.Flags), &yes, plan.TZ)
 			if err != nil {
 				sink.res.Harness = append(sink.res.Harness, "lane P run: "+err.Error())
 				return
